@@ -45,7 +45,12 @@ def space(tier):
     g2 = G.Grammar(accs=("acc1", "acc2"), calls=("CALL", "LLVMCALL"), whiles=True, max_depth=b["nesting"])
     p2 = [p for p in g2.programs(b["nodes_two_acc"]) if G.has_launch(p) and p not in seen]
     progs = p1 + p2 + G.skeletons("acc1")
-    return [(p, v) for p in progs for v in ("trace", "trace+dedup+trace")]
+    out = [(p, v) for p in progs for v in ("trace", "trace+dedup+trace")]
+    if tier == "quick":
+        # one node deeper with few leaves at nesting depth 1
+        seen |= set(p2)
+        out += [(p, "trace+dedup+trace") for p in G.slim_programs(b["nodes"] + 1) if p not in seen]
+    return out
 
 
 class Inv:
